@@ -654,6 +654,30 @@ pub fn gen_host(rng: &mut Rng) -> String {
 	s
 }
 
+/// Host-like text with the features that invite "normalisation": upper case, digits, hyphens,
+/// underscores, a wildcard label, a leading or trailing dot, punycode, an empty label.
+pub fn gen_host_odd(rng: &mut Rng) -> String {
+	let mut s = gen_host(rng);
+	for _ in 0..1 + rng.below(2) {
+		match rng.below(10) {
+			0 => s = s.to_uppercase(),
+			1 => {
+				// mixed case
+				s = s.chars().enumerate().map(|(i, c)| if i % 2 == 0 { c.to_ascii_uppercase() } else { c }).collect();
+			},
+			2 => s.push('.'),
+			3 => s.insert(0, '.'),
+			4 => s = format!("*.{}", s),
+			5 => s = format!("xn--{}", s),
+			6 => s = format!("{}-{}_{}", s, rng.below(1000), rng.below(10)),
+			7 => s = s.replacen('.', "..", 1),
+			8 => s = format!("{}.{}", rng.below(256), s),
+			_ => s = format!("{} ", s),
+		}
+	}
+	s
+}
+
 pub fn gen_oid(rng: &mut Rng) -> Vec<u64> {
 	let first = rng.below(3);
 	let second = if first < 2 {
@@ -753,16 +777,20 @@ pub fn gen_ip(rng: &mut Rng) -> IpAddr {
 
 pub fn gen_san(rng: &mut Rng) -> SanSpec {
 	match rng.below(6) {
-		0 => SanSpec::Email(if rng.chance(3, 4) {
-			format!("{}@{}", gen_host(rng), gen_host(rng))
-		} else {
-			gen_ascii(rng, 40)
+		0 => SanSpec::Email(match rng.below(4) {
+			0 | 1 => format!("{}@{}", gen_host(rng), gen_host(rng)),
+			2 => format!("{}@{}", gen_host_odd(rng), gen_host_odd(rng)),
+			_ => gen_ascii(rng, 40),
 		}),
-		1 | 2 => SanSpec::Dns(if rng.chance(3, 4) { gen_host(rng) } else { gen_ascii(rng, 40) }),
-		3 => SanSpec::Uri(if rng.chance(3, 4) {
-			format!("https://{}/{}", gen_host(rng), gen_host(rng))
-		} else {
-			gen_ascii(rng, 40)
+		1 | 2 => SanSpec::Dns(match rng.below(4) {
+			0 | 1 => gen_host(rng),
+			2 => gen_host_odd(rng),
+			_ => gen_ascii(rng, 40),
+		}),
+		3 => SanSpec::Uri(match rng.below(4) {
+			0 | 1 => format!("https://{}/{}", gen_host(rng), gen_host(rng)),
+			2 => format!("{}://{}/{}?q=%41#{}", rng.pick(&["HTTP", "ldap", "urn", "https"]), gen_host_odd(rng), gen_host_odd(rng), rng.below(10)),
+			_ => gen_ascii(rng, 40),
 		}),
 		4 => SanSpec::Ip(gen_ip(rng)),
 		_ => SanSpec::Other(gen_oid(rng), gen_text(rng, StrKind::Utf8, 30)),
@@ -788,8 +816,16 @@ pub fn gen_cidr(rng: &mut Rng) -> CidrSpec {
 
 pub fn gen_subtree(rng: &mut Rng) -> SubtreeSpec {
 	match rng.below(4) {
-		0 => SubtreeSpec::Email(if rng.chance(1, 2) { gen_host(rng) } else { gen_ascii(rng, 30) }),
-		1 => SubtreeSpec::Dns(if rng.chance(1, 2) { gen_host(rng) } else { gen_ascii(rng, 30) }),
+		0 => SubtreeSpec::Email(match rng.below(4) {
+			0 | 1 => gen_host(rng),
+			2 => gen_host_odd(rng),
+			_ => gen_ascii(rng, 30),
+		}),
+		1 => SubtreeSpec::Dns(match rng.below(4) {
+			0 | 1 => gen_host(rng),
+			2 => gen_host_odd(rng),
+			_ => gen_ascii(rng, 30),
+		}),
 		2 => {
 			let mut n = gen_name(rng, 4);
 			if n.is_empty() && rng.chance(1, 2) {
